@@ -20,6 +20,17 @@ Fixpoint strip_tags (s : list N) (intag : bool) : list N :=
       else (if c =? 60 then strip_tags r true else c :: strip_tags r false)
   end.
 Definition no_angle (s : list N) : Prop := ~ In 60 s /\ ~ In 62 s.
+(* extra_params (raw HTML supplied by the caller) brings no greater-than sign of its own *)
+Definition extra_clean (x : extra) : Prop :=
+  match x with
+  | XStr s => ~ In 62 s
+  | XCall f => forall h, ~ In 62 h -> ~ In 62 (f h)
+  end.
+(* what remains of a piece when the extra parameters are ignored *)
+Definition erase_params (p : piece) : option (list N) * list N :=
+  match p with PText s => (None, s) | PLink h _ l => (Some h, l) end.
+Definition with_extra (o : opts) (x : extra) : opts :=
+  {| o_shorten := o_shorten o; o_extra := x; o_require := o_require o; o_permitted := o_permitted o |}.
 
 (* a character entity occupies s[i..j): an ampersand at i, the next semicolon at j-1,
    no other ampersand in between *)
